@@ -229,6 +229,8 @@ class Memory(Backend):
         return await self._key_exist(key)
 
     async def unlock(self, key: Key, value: Value) -> bool:
+        if await self._get(key, default=_missed) != value:
+            return False
         return await self._delete(key)
 
     async def get_size(self, key: Key) -> int:
